@@ -343,4 +343,43 @@ MUTANTS = [
          note='setup_receiver turns DecapError into ValidationError',
          edits=[(SETUP, "let shared_secret = Kem::decap(sk_recip, pk_sender_id, encapped_key)?;",
                  "let shared_secret = Kem::decap(sk_recip, pk_sender_id, encapped_key).map_err(|_| HpkeError::ValidationError)?;")]),
+    # ------------------------------------------------------------------ C09
+    dict(name='c09-pubkey-length-check-removed', expect=[('C09', 'R09.1')],
+         note='compressed (33/49/67-byte) SEC1 points become acceptable public keys',
+         edits=[(NIST, """                    // representation.
+                    enforce_equal_len(Self::OutputSize::to_usize(), encoded.len())?;
+""", """                    // representation.
+""")]),
+    dict(name='c09-expected-given-swapped', expect=[('C09', 'R09.1')],
+         note='IncorrectInputLength payload (given, expected) for NIST private keys',
+         edits=[(NIST, """                    // Check the length
+                    enforce_equal_len(Self::OutputSize::to_usize(), encoded.len())?;""", """                    // Check the length
+                    enforce_equal_len(encoded.len(), Self::OutputSize::to_usize())?;""")]),
+    dict(name='c09-less-than-for-ne', expect=[('C09', 'R09.4')],
+         note='over-long inputs pass the length guard',
+         edits=[(UTIL, "if given_len != expected_len {", "if given_len < expected_len {")]),
+    dict(name='c09-error-payload-swapped', expect=[('C09', 'R09.4')],
+         note='error payload order (given, expected)',
+         edits=[(UTIL, "Err(HpkeError::IncorrectInputLength(expected_len, given_len))", "Err(HpkeError::IncorrectInputLength(given_len, expected_len))")]),
+    dict(name='c09-validation-error-swapped', expect=[('C09', 'R09.2')],
+         note='rejected NIST private scalars reported as DecapError',
+         edits=[(NIST, """                    let sk = curve_crate::SecretKey::from_bytes(encoded.into())
+                        .map_err(|_| HpkeError::ValidationError)?;""", """                    let sk = curve_crate::SecretKey::from_bytes(encoded.into())
+                        .map_err(|_| HpkeError::DecapError)?;""")]),
+    dict(name='c09-guard-result-ignored', expect=[('C09', 'R09.1')],
+         note='length guard evaluated but its verdict dropped',
+         edits=[(NIST, """                    // representation.
+                    enforce_equal_len(Self::OutputSize::to_usize(), encoded.len())?;
+""", """                    // representation.
+                    let _ = enforce_equal_len(Self::OutputSize::to_usize(), encoded.len());
+""")]),
+    dict(name='c09-encapped-key-from-raw', expect=[('C09', 'R09.3')],
+         note='a crate-internal helper builds a NIST public key without validation',
+         edits=[(NIST, """            impl Serializable for PrivateKey {
+                type OutputSize = $privkey_size;""", """            pub(crate) fn pk_from_affine_unchecked(p: curve_crate::AffinePoint) -> Option<PublicKey> {
+                Option::from(curve_crate::PublicKey::from_affine(p).ok()).map(PublicKey)
+            }
+
+            impl Serializable for PrivateKey {
+                type OutputSize = $privkey_size;""")]),
 ]
